@@ -205,6 +205,18 @@ def layout_oracle(case):
         exp["pad"] = b""
     if n != len(ref) or not subset_equal(pdu2.c, exp):
         raise Violation("c17:roundtrip:%s" % kind, "decoded %r" % ({k: v for k, v in pdu2.c.items() if not isinstance(v, (bytes, bytearray))},))
+    # the decoded content must not alias the caller's buffer: decode from a bytearray, scribble over it, compare again
+    buf = bytearray(ref)
+    pdu_a = cls()
+    try:
+        pdu_a.from_bytes(buf)
+        for i_ in range(len(buf)):
+            buf[i_] = (buf[i_] + 0x55) & 0xff
+        again = bytes(pdu_a.to_bytes())
+    except (codec.DecodeError, codec.EncodeError) as e:
+        raise Violation("c17:decode-from-bytearray:%s" % kind, "%r" % (e,))
+    if not subset_equal(pdu_a.c, exp) or again != ref:
+        raise Violation("c17:decoded-content-aliases-input:%s" % kind, "PDU decoded from a bytearray changed when the caller re-used the buffer")
     # reserved bits ignored on receipt (top-level and batched headers, spare octets)
     reserved = [(0, 0x08)]
     if ver >= 2:
